@@ -1,6 +1,16 @@
 package tubes
 
-import "encoding/binary"
+import (
+	"encoding/binary"
+	"errors"
+)
+
+// frameHeaderLen is the size of the fixed header that precedes a frame's data.
+const frameHeaderLen = 12
+
+// errMalformedFrame is returned when a received frame is shorter than its
+// header or than the data length its header announces.
+var errMalformedFrame = errors.New("malformed frame")
 
 type frame struct {
 	ackNo      uint32
@@ -117,12 +127,19 @@ func (p *frame) toBytes() []byte {
 }
 
 func fromBytes(b []byte) (*frame, error) {
+	if len(b) < frameHeaderLen {
+		return nil, errMalformedFrame
+	}
 	dataLength := binary.BigEndian.Uint16(b[2:4])
+	// computed in int: 12+dataLength must not wrap around in uint16
+	if frameHeaderLen+int(dataLength) > len(b) {
+		return nil, errMalformedFrame
+	}
 	return &frame{
 		tubeID:     b[0],
 		flags:      metaToFlags(b[1]),
 		dataLength: dataLength,
-		data:       append([]byte(nil), b[12:12+dataLength]...),
+		data:       append([]byte(nil), b[frameHeaderLen:frameHeaderLen+int(dataLength)]...),
 		ackNo:      binary.BigEndian.Uint32(b[4:8]),
 		frameNo:    binary.BigEndian.Uint32(b[8:12]),
 	}, nil
